@@ -340,6 +340,9 @@ func (n *WorkflowNode) checkAndAddMappedPath(paths []FieldPath) error {
 		if _, ok = v.(struct{}); ok {
 			return fmt.Errorf("entire output has already been mapped for node: %s", n.key)
 		}
+		if len(paths) == 0 {
+			return fmt.Errorf("entire output cannot be mapped for node %s: some fields have already been mapped", n.key)
+		}
 	} else {
 		if len(paths) == 0 {
 			n.mappedFieldPath[""] = struct{}{}
@@ -350,18 +353,38 @@ func (n *WorkflowNode) checkAndAddMappedPath(paths []FieldPath) error {
 	}
 
 	for _, targetPath := range paths {
-		m := n.mappedFieldPath[""].(map[string]any)
+		m, ok := n.mappedFieldPath[""].(map[string]any)
+		if !ok {
+			return fmt.Errorf("entire output has already been mapped for node: %s", n.key)
+		}
+
+		if len(targetPath) == 0 {
+			// the mapping targets the entire input: it conflicts with every other target path
+			if len(m) > 0 {
+				return fmt.Errorf("entire output cannot be mapped for node %s: some fields have already been mapped", n.key)
+			}
+			n.mappedFieldPath[""] = struct{}{}
+			continue
+		}
+
 		var traversed FieldPath
 		for i, path := range targetPath {
 			traversed = append(traversed, path)
+			last := i == len(targetPath)-1
 			if v, ok := m[path]; ok {
 				if _, ok = v.(struct{}); ok {
 					return fmt.Errorf("two terminal field paths conflict for node %s: %v, %v", n.key, traversed, targetPath)
 				}
+				if last {
+					// a longer path below this one has already been mapped
+					return fmt.Errorf("two terminal field paths conflict for node %s: %v is a prefix of an already mapped path", n.key, targetPath)
+				}
 			}
 
-			if i < len(targetPath)-1 {
-				m[path] = make(map[string]any)
+			if !last {
+				if _, ok := m[path]; !ok {
+					m[path] = make(map[string]any)
+				}
 				m = m[path].(map[string]any)
 			} else {
 				m[path] = struct{}{}
